@@ -261,7 +261,7 @@ func genC04Batch(rt *rapid.T) C04Batch {
 		b.PrepErr = errFlavors[uniform(rt, len(errFlavors), "pf")]
 	}
 	if b.PostErr != 0 {
-		b.PostErr = errFlavors[uniform(rt, len(errFlavors), "qf")]
+		b.PostErr = append(append([]int(nil), errFlavors...), 12, 12, 13, 13)[uniform(rt, len(errFlavors)+4, "qf")]
 	}
 	return C04Batch{B: b, InFlow: rapid.Bool().Draw(rt, "inflow")}
 }
